@@ -41,14 +41,14 @@ func hashCommitShape(P *Program, R *Report, rule string) {
 				nMarshal++
 				for _, sig := range []bool{true, false} {
 					assume = map[string]bool{"arg#1": sig}
-					seq, ok := seqOf(stripConv(cc.Call.Args[0]))
+					seq, ok := seqOf(stripConv(callArgs(cc)[0]))
 					seqs[sig], seqOK[sig] = seqString(seq), ok
 					assume = map[string]bool{}
 				}
 			case isCallTo(c, "crypto/sha256.Sum256"):
 				sum = cc
 				nSum++
-				if ex, ok := origin(cc.Call.Args[0]).(*ssa.Extract); ok && ex.Index == 0 {
+				if ex, ok := origin(callArgs(cc)[0]).(*ssa.Extract); ok && ex.Index == 0 {
 					if m, ok := ex.Tuple.(*ssa.Call); ok && isCallTo(m, "encoding/asn1.Marshal") {
 						digestInputOK = true
 					}
@@ -61,15 +61,15 @@ func hashCommitShape(P *Program, R *Report, rule string) {
 				setBytes = cc
 				wholeOK = true
 				wholeDetail = "digest taken by IntHashSha256"
-				if ex, ok := origin(cc.Call.Args[0]).(*ssa.Extract); ok && ex.Index == 0 {
+				if ex, ok := origin(callArgs(cc)[0]).(*ssa.Extract); ok && ex.Index == 0 {
 					if m, ok := ex.Tuple.(*ssa.Call); ok && isCallTo(m, "encoding/asn1.Marshal") {
 						digestInputOK = true
 					}
 				}
 			case bigMethod(cc) == "SetBytes":
 				setBytes = cc
-				wholeDetail = "SetBytes argument is " + desc(cc.Call.Args[1])
-				if sl, ok := cc.Call.Args[1].(*ssa.Slice); ok && sl.Low == nil && sl.High == nil {
+				wholeDetail = "SetBytes argument is " + desc(callArgs(cc)[1])
+				if sl, ok := callArgs(cc)[1].(*ssa.Slice); ok && sl.Low == nil && sl.High == nil {
 					if al, ok := sl.X.(*ssa.Alloc); ok {
 						for _, r := range referrersOf(al) {
 							if st, ok := r.(*ssa.Store); ok && st.Addr == al {
@@ -109,7 +109,7 @@ func hashCommitShape(P *Program, R *Report, rule string) {
 	if marshal == nil || sum == nil {
 		return
 	}
-	R.decide(rule, key+":digest-input", "the digest input is exactly the marshal result", digestInputOK, "got "+desc(sum.Call.Args[0]), P.Pos(sum.Pos()))
+	R.decide(rule, key+":digest-input", "the digest input is exactly the marshal result", digestInputOK, "got "+desc(callArgs(sum)[0]), P.Pos(sum.Pos()))
 	R.decide(rule, key+":whole-digest", "the returned integer is SetBytes of the whole 32-byte digest (no truncation)", wholeOK, wholeDetail, P.Pos(fn.Pos()))
 	retOK := setBytes != nil
 	for _, r := range returnsOf(fn) {
@@ -131,7 +131,7 @@ func hashCommitShape(P *Program, R *Report, rule string) {
 		c := fmt.Sprintf("%s:sequence[issig=%v]", key, sig)
 		what := fmt.Sprintf("with issig=%v the encoded sequence is %s", sig, want)
 		if !seqOK[sig] {
-			R.und(rule, c, what, "slice construction idiom not recognised for "+desc(marshal.Call.Args[0]), P.Pos(marshal.Pos()))
+			R.und(rule, c, what, "slice construction idiom not recognised for "+desc(callArgs(marshal)[0]), P.Pos(marshal.Pos()))
 		} else {
 			R.decide(rule, c, what, seqs[sig] == want, "got "+seqs[sig], P.Pos(marshal.Pos()))
 		}
@@ -165,15 +165,15 @@ func init() {
 						set = cc
 					}
 				}
-				ok := write != nil && sum != nil && set != nil && desc(write.Call.Args[0]) == "arg#0" && desc(write.Call.Value) == "call:crypto/sha256.New()" &&
-					desc(sum.Call.Value) == "call:crypto/sha256.New()" && isNilConst(sum.Call.Args[0]) && set.Call.Args[1] == ssa.Value(sum)
+				ok := write != nil && sum != nil && set != nil && desc(callArgs(write)[0]) == "arg#0" && desc(write.Call.Value) == "call:crypto/sha256.New()" &&
+					desc(sum.Call.Value) == "call:crypto/sha256.New()" && isNilConst(callArgs(sum)[0]) && callArgs(set)[1] == ssa.Value(sum)
 				// equivalent one-shot form: SetBytes(sha256.Sum256(input)[:])
 				if !ok && set != nil && write == nil {
-					if sl, isSl := set.Call.Args[1].(*ssa.Slice); isSl && sl.Low == nil && sl.High == nil {
+					if sl, isSl := callArgs(set)[1].(*ssa.Slice); isSl && sl.Low == nil && sl.High == nil {
 						if al, isAl := sl.X.(*ssa.Alloc); isAl {
 							for _, r := range referrersOf(al) {
 								if st, isSt := r.(*ssa.Store); isSt && st.Addr == ssa.Value(al) {
-									if c, isC := st.Val.(*ssa.Call); isC && isCallTo(c, "crypto/sha256.Sum256") && desc(c.Call.Args[0]) == "arg#0" {
+									if c, isC := st.Val.(*ssa.Call); isC && isCallTo(c, "crypto/sha256.Sum256") && desc(callArgs(c)[0]) == "arg#0" {
 										ok = true
 									}
 								}
@@ -220,7 +220,7 @@ func init() {
 						}
 						n++
 						k := FuncKey(fn)
-						d := desc(c.Common().Args[1])
+						d := desc(callArgs(c)[1])
 						want := "false"
 						if k == "gabi.createChallenge" {
 							want = "arg#3"
@@ -250,13 +250,13 @@ func getHashNumberRule(P *Program, R *Report) {
 		R.bad(rule, key+":limb", "limbs are computed by HashCommit", "no call", P.Pos(fn.Pos()))
 		return
 	}
-	R.decide(rule, key+":issig", "limbs are hashed without the signature-session marker", desc(hc.Call.Args[1]) == "false", "", P.Pos(hc.Pos()))
+	R.decide(rule, key+":issig", "limbs are hashed without the signature-session marker", desc(callArgs(hc)[1]) == "false", "", P.Pos(hc.Pos()))
 	// the list: optional a, optional b, index, counter(0)
 	// evaluate the append chain with the two optional elements
 	listOK := false
 	var notes []string
 	var lastElem ssa.Value // the counter: the last element appended to the hashed list
-	list := hc.Call.Args[0]
+	list := callArgs(hc)[0]
 	walkList := func(f func(v ssa.Value)) { f(list) }
 	if c, ok := list.(*ssa.Call); ok && !isCallTo(c, "builtin:append") {
 		// the list is assembled by an unexported helper: walk its (single) returned slice with its parameters bound
@@ -271,7 +271,7 @@ func getHashNumberRule(P *Program, R *Report) {
 			switch x := v.(type) {
 			case *ssa.Call:
 				if isCallTo(x, "builtin:append") {
-					t, ok := seqTail(x.Call.Args[1], 0, map[ssa.Value]bool{})
+					t, ok := seqTail(callArgs(x)[1], 0, map[ssa.Value]bool{})
 					if ok && len(t) == 1 && lastElem == nil && len(tail) == 0 {
 						lastElem = t[0].V
 					}
@@ -284,7 +284,7 @@ func getHashNumberRule(P *Program, R *Report) {
 						}
 						tail = append([]string{t[0].D + cond}, tail...)
 					}
-					v = x.Call.Args[0]
+					v = callArgs(x)[0]
 					continue
 				}
 			case *ssa.Phi:
@@ -292,7 +292,7 @@ func getHashNumberRule(P *Program, R *Report) {
 				var next ssa.Value
 				for _, e := range x.Edges {
 					if c, ok := e.(*ssa.Call); ok && isCallTo(c, "builtin:append") {
-						t, ok := seqTail(c.Call.Args[1], 0, map[ssa.Value]bool{})
+						t, ok := seqTail(callArgs(c)[1], 0, map[ssa.Value]bool{})
 						cond := ""
 						for _, a := range controllingConds(c.Block()) {
 							a = normAtom(a)
@@ -302,7 +302,7 @@ func getHashNumberRule(P *Program, R *Report) {
 						if ok && len(t) == 1 {
 							tail = append([]string{"?" + t[0].D + cond}, tail...)
 						}
-						next = c.Call.Args[0]
+						next = callArgs(c)[0]
 					}
 				}
 				if next != nil {
@@ -354,9 +354,9 @@ func getHashNumberRule(P *Program, R *Report) {
 							return
 						}
 						// cur.Lsh(cur, k) in place, or shifted := new(big.Int).Lsh(cur, k)
-						if bigMethod(c) == "Lsh" && siteOf(c.Call.Args[1]) == ssa.Value(hc) && stripConv(c.Call.Args[2]) == ssa.Value(phi) {
+						if bigMethod(c) == "Lsh" && siteOf(callArgs(c)[1]) == ssa.Value(hc) && stripConv(callArgs(c)[2]) == ssa.Value(phi) {
 							okShift = true
-							shiftedSite = siteOf(c.Call.Args[0])
+							shiftedSite = siteOf(callArgs(c)[0])
 						}
 					})
 				}
@@ -368,25 +368,25 @@ func getHashNumberRule(P *Program, R *Report) {
 				return
 			}
 			// res.Add(res, cur)
-			if siteOf(c.Call.Args[0]) == siteOf(c.Call.Args[1]) && shiftedSite != nil && siteOf(c.Call.Args[2]) == shiftedSite {
+			if siteOf(callArgs(c)[0]) == siteOf(callArgs(c)[1]) && shiftedSite != nil && siteOf(callArgs(c)[2]) == shiftedSite {
 				for _, r := range returnsOf(fn) {
-					if siteOf(r.Results[0]) == siteOf(c.Call.Args[0]) {
+					if siteOf(r.Results[0]) == siteOf(callArgs(c)[0]) {
 						okAdd = true
 					}
 				}
 			}
 			// counter: tmp[countIdx].Add(tmp[countIdx], 1)
-			d0, d1 := desc(c.Call.Args[0]), desc(c.Call.Args[1])
+			d0, d1 := desc(callArgs(c)[0]), desc(callArgs(c)[1])
 			isCounter := d0 == d1 && strings.Contains(d0, "[len(")
 			// list[len(list)-1]: the last element of the hashed list
-			if ld, isLoad := c.Call.Args[0].(*ssa.UnOp); isLoad && d0 == d1 {
+			if ld, isLoad := callArgs(c)[0].(*ssa.UnOp); isLoad && d0 == d1 {
 				if ia, isIA := ld.X.(*ssa.IndexAddr); isIA && ia.X == list {
 					if a, ok := affineOf(ia.Index); ok && a.String() == parseAffine("len("+desc(list)+")-1").String() {
 						isCounter = true
 					}
 				}
 			}
-			if lastElem != nil && siteOf(c.Call.Args[0]) == siteOf(lastElem) && siteOf(c.Call.Args[1]) == siteOf(lastElem) {
+			if lastElem != nil && siteOf(callArgs(c)[0]) == siteOf(lastElem) && siteOf(callArgs(c)[1]) == siteOf(lastElem) {
 				isCounter = true // the counter object itself, kept in a local
 			}
 			if isCounter {
